@@ -523,11 +523,27 @@ func irrelevantAxioms(lines []string, rest []string) map[int]bool {
 		idx  int
 		syms []string
 		char []string
+		def  string // representation: the ghost variable it defines ("" for plain axioms)
 	}
 	var axs []ax
 	for i, l := range lines {
 		if i > 0 && strings.HasPrefix(lines[i-1], "; axiom ") && strings.HasPrefix(l, "(assert ") {
-			axs = append(axs, ax{idx: i, syms: lineSyms(l)})
+			syms := lineSyms(l)
+			def := ""
+			// a `representation` (comment "; axiom name defines G!g") DEFINES g from other state: it matters only where g
+			// occurs AND that other state matters (judged, as for every axiom, by the rarest of the remaining symbols). Where
+			// only g occurs the definition is an unused one: g is simply unconstrained by it
+			if k := strings.Index(lines[i-1], " defines "); k > 0 {
+				def = strings.TrimSpace(lines[i-1][k+len(" defines "):])
+				var rest []string
+				for _, s := range syms {
+					if s != def {
+						rest = append(rest, s)
+					}
+				}
+				syms = rest
+			}
+			axs = append(axs, ax{idx: i, syms: syms, def: def})
 			continue
 		}
 		if strings.HasPrefix(l, "(declare-") || strings.HasPrefix(l, ";") {
@@ -582,11 +598,17 @@ func irrelevantAxioms(lines []string, rest []string) map[int]bool {
 					break
 				}
 			}
+			if a.def != "" && !used[a.def] {
+				rel = false
+			}
 			if rel {
 				kept[a.idx] = true
 				changed = true
 				for _, s := range a.syms {
 					used[s] = true
+				}
+				if a.def != "" {
+					used[a.def] = true
 				}
 			}
 		}
